@@ -119,7 +119,7 @@ func runCRDT(prop string, args []string) int {
 				// no alarm without the real store: replay twice on badger, must reproduce both times
 				ok := true
 				for k := 0; k < 2; k++ {
-					vs, _, err := crdtx.Replay(cfg, vi.Path, true)
+					vs, _, err := crdtx.ReplayAfter(cfg, vi.OtherPath, vi.Path, true)
 					if err != nil {
 						rep.HarnessError("replay of %v on badger: %v", vi.Path, err)
 					}
@@ -136,7 +136,7 @@ func runCRDT(prop string, args []string) int {
 				}
 				classes[vi.Fingerprint] = vi
 				r.Violation(rep.Violation{Fingerprint: vi.Fingerprint, Summary: vi.Detail,
-					Replay: map[string]any{"engine": "crdtx", "scenario": sc.Name, "config": cfgJSON(cfg), "path": vi.Path}})
+					Replay: map[string]any{"engine": "crdtx", "scenario": sc.Name, "config": cfgJSON(cfg), "path": vi.Path, "other_path": vi.OtherPath}})
 			}
 			// trace validation: replay sampled paths on badger and compare the observables
 			for _, p := range e.Samples() {
@@ -194,7 +194,8 @@ func replayCRDT(prop, file string) int {
 				PreCreate     bool
 				PostSchema    []string
 			}
-			Path []string
+			Path      []string
+			OtherPath []string `json:"other_path"`
 		}
 	}
 	if err := json.Unmarshal(b, &f); err != nil {
@@ -206,7 +207,7 @@ func replayCRDT(prop, file string) int {
 	if !c.PreCreate {
 		cfg.Ops = append([]crdtx.OpKind{{Name: "create", Kind: "create"}}, crdtOps...)
 	}
-	vs, fin, err := crdtx.Replay(cfg, f.Replay.Path, true)
+	vs, fin, err := crdtx.ReplayAfter(cfg, f.Replay.OtherPath, f.Replay.Path, true)
 	if err != nil {
 		rep.HarnessError("%v", err)
 	}
